@@ -20,7 +20,7 @@ CHECKS = {
             "DESIGN.md section 4, C01"),
     "C05": ("exploration",
             "runtime contracts with OLD-frame snapshot on PdoVariable.get_data/set_data judged by an independent bit-field model, plus typed read-back at the API; generated layouts forcing every bit offset x type",
-            "Every read and write of a mapped variable performed by the workload (all 64 bit offsets x every integer type, BOOLEAN, REAL32/64, sub-byte fields, all 2^len values for short fields, three initial frame contents) is compared bit for bit with a reference model of the frame as one little-endian integer. Held = no access disagreed.",
+            "Every read and write of a mapped variable performed by the workload (all 64 bit offsets x every integer type, BOOLEAN, REAL32/64, sub-byte fields, all 2^len values for short fields, three initial frame contents and contents arriving through the reception handler; mappings built by add_variable, by name and by read() incl. record members) is compared bit for bit with a reference model of the frame as one little-endian integer. Held = no access disagreed.",
             "Trusted: reference bit arithmetic; layouts beyond those generated are not covered.",
             "DESIGN.md section 4, C05"),
     "C07": ("fault_enumeration",
